@@ -169,6 +169,10 @@ class Runner:
                                              if os.path.exists(os.path.join(self.repo, f))]
         self.exe = vlib.compile_harness("loader_fuzz", srcs, "asan",
                                         extra=["-I", os.path.join(self.repo, "programs"), "-D_GLIBCXX_ASSERTIONS"])
+        # the same harness built with g++: automatic variables are filled with another pattern (0xFE.. = finite doubles; clang
+        # fills doubles with NaN), so a value that comes from an uninitialised local shows up as a different result
+        self.exe2 = vlib.compile_harness("loader_fuzz", srcs, "plain", extra=["-I", os.path.join(self.repo, "programs"), "-D_GLIBCXX_ASSERTIONS"])
+        self.env2 = vlib.harness_env("plain")
         self.runbin = os.path.join(vlib.ensure_build("plain"), "bxdecay0-run")
         if not os.path.exists(self.runbin):
             raise vlib.InfraError("bxdecay0-run not built: %s" % self.runbin)
@@ -261,6 +265,36 @@ class Runner:
                         r["retried"] = True
                         res[r["id"]] = r
             self.ck.add("timeouts_retried", len(slow))
+        # the event-record and catalogue cases once more in the g++ build: the two builds must agree on what was delivered
+        if not _retry:
+            second = [t for sh in shards for t in sh if t[1] == "event" or t[1] in LIS_FILE]
+            if second:
+                lst = os.path.join(self.work, "cases.gcc.%d.tsv" % len(os.listdir(self.work)))
+                with open(lst, "w") as f:
+                    for t in second:
+                        f.write("\t".join(t) + "\n")
+                rc2, out2 = vlib.sh([self.exe2, "--cases", lst, "--out", lst + ".out", "--timeout", str(CASE_TIMEOUT), "--seed", str(self.ck.seed)],
+                                    timeout=budget, env=self.env2)
+                if rc2 not in (0, 124):
+                    raise vlib.InfraError("loader_fuzz (g++ build) failed (rc=%s): %s" % (rc2, out2[-800:]))
+                if os.path.exists(lst + ".out"):
+                    with open(lst + ".out", encoding="latin-1") as f:
+                        for line in f:
+                            r2 = json.loads(line)
+                            r1 = res.get(r2["id"])
+                            if not r1 or not r1.get("res") or not r2.get("res"):
+                                if r1 is not None and r2.get("how") not in (None, "exit", "timeout") and r1.get("how") in (None, "exit"):
+                                    res[r2["id"]] = r2          # the g++ build crashed where the clang build did not
+                                continue
+                            a, b = r1["res"], r2["res"]
+                            keys = ("outcome", "nev", "npart", "n", "invalid")
+                            if any(a.get(k) != b.get(k) for k in keys):
+                                a["build_dependent"] = 1
+                                a["other_build"] = {k: b.get(k) for k in keys}
+                                for k in ("nev", "npart", "n"):
+                                    if isinstance(a.get(k), int) and isinstance(b.get(k), int):
+                                        a[k] = max(a[k], b[k])
+                self.ck.add("cases_run_in_both_builds", len(second))
         return res
 
     def run_binary(self, cases):
@@ -326,7 +360,8 @@ def observation(c, rec):
     h = hfmt(c.fmt)
     g = lambda k: int(res.get(k, 0) or 0)
     if h == "event":
-        return sym, 4 * g("nev") + 5 * g("npart"), 0, g("invalid"), 0
+        # alien: what was delivered differs between two builds that fill uninitialised automatic variables differently
+        return sym, 4 * g("nev") + 5 * g("npart"), 0, g("invalid"), g("build_dependent")
     # Only the loaders' OWN validity predicates count as "invalid": event::is_valid for a delivered event, "p.d.f. value
     # >= 0" for the loaded table (seen through plot_interpolated_pdf), the catalogue loaders' acceptance test.  What a later
     # shoot makes of a table that passes them (e.g. NaN momenta from an absurd but accepted energy range) is not the
@@ -334,7 +369,7 @@ def observation(c, rec):
     if h in GA_FILE:
         return sym, 0, 0, g("plot_neg"), g("plot_over")
     if h in LIS_FILE:
-        return sym, 0, g("n"), g("implausible"), g("alien")
+        return sym, 0, g("n"), g("implausible"), g("alien") + g("build_dependent")
     return sym, 0, 0, 0, 0
 
 
